@@ -371,6 +371,9 @@ struct ConnLedger {
     /// a period was opened in the current processing step (at this instant)
     rec_opened_now: Option<u64>,
     recovery_start_b: Option<u64>,
+    /// largest ECN-CE count reported to this endpoint so far (per space) / a higher one arrived in this processing step
+    ce_seen: HashMap<Space, u64>,
+    ce_signal: bool,
     cur_mtu: u64,
     paths: BTreeSet<u64>,
     /// losses waiting for the metrics event that closes the same processing step
@@ -402,6 +405,7 @@ pub struct RecoverySummary {
     pub recovery_periods: usize,
     pub losses_inside_recovery: usize,
     pub over_window_sends: usize,
+    pub ce_signals: usize,
 }
 
 impl ConnLedger {
@@ -444,6 +448,20 @@ pub fn check_recovery(sc: &Scenario, out: &Outcome, opts: &RecoveryOpts, obs: &m
                     c.closed = true;
                 }
                 c.pending_cc.insert((*space, *pn), cc);
+            }
+            Ev::Rx { space, frames: Ok(fr), .. } => {
+                // RFC 9002 7.1: an increase of the ECN-CE count reported by the peer is a congestion signal like a loss
+                // (the repository's ECN controller deliberately sends CE-marked packets to test the peer)
+                for f in fr {
+                    if let WFrame::Ack { ecn: Some((_, _, ce)), .. } = f {
+                        let seen = c.ce_seen.entry(*space).or_insert(0);
+                        if *ce > *seen {
+                            *seen = *ce;
+                            c.ce_signal = true;
+                            sum.ce_signals += 1;
+                        }
+                    }
+                }
             }
             Ev::PacketSent { space, pn, len, mode } => {
                 c.apply_discard();
@@ -699,9 +717,30 @@ pub fn check_recovery(sc: &Scenario, out: &Outcome, opts: &RecoveryOpts, obs: &m
                 }
                 c.apply_discard();
                 c.rec_opened_now = None;
-                if let Some(t) = c.rec_acked_t.take() {
+                let acked_t = c.rec_acked_t.take();
+                if let Some(t) = acked_t {
                     if c.rec_starts.iter().any(|s| *s < t) {
                         c.rec_maybe_out = true;
+                    }
+                }
+                if std::mem::take(&mut c.ce_signal) {
+                    // judged at the end of the step (whichever order the implementation uses for exit and signal)
+                    // (the implementation may also disregard the report - ECN validation failed or still pending - so the
+                    // signal only ADDS a possible period start; "no period open" stays possible)
+                    if c.rec_starts.is_empty() || c.rec_maybe_out {
+                        c.rec_maybe_out = true;
+                        c.rec_starts.insert(r.t_us);
+                        c.loss_since_last_cc_send = true;
+                        sum.recovery_periods += 1;
+                    }
+                    // reading B: OnCongestionEvent(sent time of the largest newly acknowledged packet)
+                    if match (c.recovery_start_b, acked_t) {
+                        (None, _) => true,
+                        (Some(start), Some(t)) => t > start,
+                        (Some(_), None) => false,
+                    } {
+                        c.recovery_start_b = Some(r.t_us);
+                        c.loss_since_last_cc_send = true;
                     }
                 }
                 // persistent congestion collapses the window to the minimum and restarts slow start, which also ends the
